@@ -107,6 +107,9 @@ def run(ctx):
             return 'the real code panicked'
         if op == 'rx':
             if r[:1] in ('t', 'c') and r[1:].isdigit():
+                a, _, b = fi.get('tops', '-1:-1').partition(':')
+                if int(b) <= int(a):
+                    return ('Relax: the new requirement admits at most version #%s, the old one admitted #%s (deps.dev matching on the known versions): not strictly upward' % (b, a))
                 if not bit(fm.get('spec'), int(r[1:])):
                     return 'Relax built the requirement from version #%s, which is not strictly above the highest matching version #%s with an allowed difference' % (r[1:], fm.get('last'))
             elif r != 'fail':
